@@ -706,6 +706,44 @@ func inclusionCycles(c *an.Ctx, bfd *ssa.Function, rule string) {
 		}
 	}
 	c.Check(okFollow, rule, an.Short(walker)+":follows-links", walker.Pos(), "the walk recurses into stage.Pipeline", "the walker does not recurse into the pipelines its stages include")
+	// … for every stage that includes one, whatever else the stage has: one pass of the walker's loop over
+	// the stages, explored with "this stage's Pipeline is set" and nothing else known, reaches the
+	// recursive call (or an error return) on every path
+	if okFollow {
+		var rec *ssa.Call
+		for _, s := range p.CallSitesOf(walker) {
+			if call, ok := s.(*ssa.Call); ok && s.Parent() == walker {
+				rec = call
+			}
+		}
+		var loop *an.Loop
+		if rec != nil {
+			loop = an.InnermostLoop(an.Loops(walker), rec.Block())
+		}
+		if rec != nil && loop != nil && loop.BodyEntry() != nil {
+			ex := &an.Explorer{P: p, NoReturn: noReturn}
+			loop.Bound(ex)
+			ex.Atom = func(v ssa.Value) (an.AVal, bool) {
+				if x, eq, isNil := an.NilTest(v); isNil && an.FieldProv(x) == "Stage.Pipeline" {
+					return an.ABool(eq == false), true // Pipeline != nil holds
+				}
+				return an.AVal{}, false
+			}
+			ex.Effect = func(in ssa.Instruction, st *an.State) string {
+				if in == ssa.Instruction(rec) {
+					return "recurse"
+				}
+				return ""
+			}
+			skipped := false
+			for _, o := range ex.Run(walker, loop.BodyEntry(), loop.Header, nil) {
+				if o.End == "stop" && o.StopBlock == loop.Header && !has(o.Effects, "recurse") {
+					skipped = true
+				}
+			}
+			c.Check(!skipped, rule, an.Short(walker)+":follows-every-link", rec.Pos(), "a stage whose Pipeline is set is always followed", "the walker can pass over a stage whose Pipeline is set without following it (the test that skips a stage is not 'Pipeline == nil'): an inclusion cycle through such a stage is accepted")
+		}
+	}
 }
 
 // paramIndexOf returns the index of the parameter v resolves to, or -1
